@@ -1,4 +1,5 @@
 import VOPyVerif.Drv.Proto
+import VOPyVerif.Drv.CoreOps
 import VOPyVerif.Model.Accuracy
 /-! Driver front end for property C01 (valid regions ⇒ ε-accurate Pareto set).
 
@@ -19,6 +20,10 @@ import VOPyVerif.Model.Accuracy
   `cov[i][j]` = "region i is covered by region j")
 * `around <eps> <C> <B> <S> <P>`         → `S';P'` : one `Steps.auerRound` with centres `C` (row i = design i)
   and width rows `B`, every width looked up by design
+
+* INTEGRATION: `pcore ball|rect …`, `vcore …` — whole runs through the executable decision core
+  (`Model/Core.lean`: oracles computed from the displayed regions by the exact geometry models); see
+  `Drv/CoreOps.lean` for the formats.
 
 `M` is the matrix of true means (row `i` = design `i`).  Guards (else `bad-op`): `M` non-empty, all
 rows of `M` and `W` of one length, `α` positive with one entry per facet, every index of `P` `< K`.
@@ -115,6 +120,6 @@ def handle (args : List String) : String :=
         | none => "none"
       else bad
     | _, _, _, _ => bad
-  | _ => bad
+  | _ => (CoreOps.handle args).getD bad  -- INTEGRATION: whole runs through `Model/Core.lean`
 
 end VOPy.Drv.C01
